@@ -5,7 +5,7 @@ from .. import spaces, binprog
 from ..common import nmv, Result, gmv, mvdict, eq_elem, show, cfg_name, cfg_repro
 from ..harness import violation
 from ..oracle import make_algebra, ref_from_config
-from ..ring import P, Trap, iszero
+from ..ring import P, Trap, iszero, same
 
 PID = 'C04'
 LEVEL = 'exploration'
@@ -131,6 +131,29 @@ def run_shard(shard):
                 repro = head + f"a = alg.multivector(keys={tuple(ka)}, name='a'); b = alg.multivector(keys={tuple(kb)}, name='b')\nprint(a {sym} b)"
                 run(f'{op}:{len(ka)}x{len(kb)}', f'{name} a{sym}b keys {ka} {kb}', case_for(ka, kb), exp,
                     (lambda: a + b) if sgn > 0 else (lambda: a - b), repro)
+            # augmented assignment: s = a; s += b gives a+b and leaves the object a (still referred to elsewhere) what it was
+            for op, sgn in (('iadd', 1), ('isub', -1)):
+                res.evals += 1
+                a2 = gmv(alg, ka, 'a')
+                before = list(a2.values())
+                exp = dict(zip(ka, a2.values()))
+                for k, v in zip(kb, b.values()):
+                    v = v if sgn > 0 else -v
+                    exp[k] = exp[k] + v if k in exp else v
+                repro = head + f"a = alg.multivector(keys={tuple(ka)}, name='a'); b = alg.multivector(keys={tuple(kb)}, name='b')\ns = a\ns {'+' if sgn > 0 else '-'}= b\nprint(s, a)"
+
+                def aug():
+                    s_ = a2
+                    if sgn > 0:
+                        s_ += b
+                    else:
+                        s_ -= b
+                    return s_
+                run(f'{op}:{len(ka)}x{len(kb)}', f"{name} s = a; s {'+' if sgn > 0 else '-'}= b keys {ka} {kb}", case_for(ka, kb), exp, aug, repro)
+                now = list(a2.values())
+                if tuple(a2.keys()) != tuple(ka) or len(now) != len(before) or any(not same(u, v) for u, v in zip(now, before)):
+                    res.violate(violation(f'{op}:operand-changed', f"{name} s = a; s {'+' if sgn > 0 else '-'}= b keys {ka} {kb}: the object a was modified", case_for(ka, kb),
+                                          show(dict(zip(ka, before))), show(dict(zip(a2.keys(), now))), repro))
             if len(res.samples) < 1 and len(ka) == 2 and len(kb) == 2 and set(ka) != set(kb):
                 res.sample({'config': name, 'op': 'sub', 'keys_a': list(ka), 'keys_b': list(kb), 'reference': show(exp)})
     elif kind == 'unary':
